@@ -289,3 +289,37 @@ package badger
 //@   ensures[read-ts] !isManaged ==> result.readTs == old(db.orc.nextTxnTs) - 1
 //@   ensures[managed-read-ts] isManaged ==> result.readTs == 0
 //@   assigns held(db.orc.Mutex), db.orc.readMark.lastIndex.v, db.orc.txnMark.doneUntil.v
+
+// ---- reads (C01, C02, C04, C28, C33) ----
+
+//@ func (*Txn).addReadKey
+//@   props C02
+//@   ensures[tracked] txn.update ==> len(txn.reads) == old(len(txn.reads)) + 1 && txn.reads[len(txn.reads)-1] == memHash(key)
+//@   ensures[readonly] !txn.update ==> txn.reads == old(txn.reads)
+//@   assigns txn.reads, txn.reads[len(txn.reads):cap(txn.reads)], held(txn.readsLock)
+
+//@ spec pendingHit(txn *Txn, key []byte) bool = txn.update && string(key) in txn.pendingWrites && bytes(key) == bytes(txn.pendingWrites[string(key)].Key)
+//@ spec gone(meta byte, exp uint64, clock int64) bool = meta&bitDelete != 0 || (exp != 0 && exp <= uint64(clock))
+
+// Get: banned keys are inaccessible to reads as well (C28); a pending write of the same
+// transaction is served from the transaction, with its value, user meta, expiry and deletion
+// (C04, C33) and is not tracked as a read; otherwise the key is tracked (C02) and looked up at
+// exactly the read timestamp (C01); a deleted or expired newest version is "not found" (C33).
+//@ func (*Txn).Get
+//@   props C28 C33 C04 C02 C01
+//@   requires txn.db != nil && txn.db.bannedNamespaces != nil && (txn.update ==> txn.pendingWrites != nil && allnonnil(txn.pendingWrites))
+//@   domain txn.db.opt.NamespaceOffset < 1<<40
+//@   ensures[empty-key] len(key) == 0 ==> rerr == ErrEmptyKey && item == nil
+//@   ensures[discarded] len(key) != 0 && txn.discarded ==> rerr == ErrDiscardedTxn && item == nil
+//@   ensures[banned] len(key) != 0 && !txn.discarded && old(banned(txn.db, key)) ==> rerr == ErrBannedKey && item == nil
+//@   ensures[pending-live] len(key) != 0 && !txn.discarded && !old(banned(txn.db, key)) && old(pendingHit(txn, key)) && !gone(old(txn.pendingWrites[string(key)].meta), old(txn.pendingWrites[string(key)].ExpiresAt), now) ==> rerr == nil && item != nil && item.val == old(txn.pendingWrites[string(key)].Value) && item.userMeta == old(txn.pendingWrites[string(key)].UserMeta) && item.expiresAt == old(txn.pendingWrites[string(key)].ExpiresAt) && item.meta == old(txn.pendingWrites[string(key)].meta) && item.version == txn.readTs
+//@   ensures[pending-gone] len(key) != 0 && !txn.discarded && !old(banned(txn.db, key)) && old(pendingHit(txn, key)) && gone(old(txn.pendingWrites[string(key)].meta), old(txn.pendingWrites[string(key)].ExpiresAt), now) ==> rerr == ErrKeyNotFound && item == nil
+//@   ensures[pending-untracked] old(pendingHit(txn, key)) ==> txn.reads == old(txn.reads)
+//@   ensures[error-no-item] rerr != nil ==> item == nil
+//@   assert[read-tracked] before call addReadKey : arg1 == key
+//@   assert[seek-at-read-ts] before call KeyWithTs : arg0 == key && arg1 == txn.readTs
+//@   assert[lookup-seek] before call get : arg1 == ret(KeyWithTs#1)
+//@   assert[lsm-not-found] before return : called(isDeletedOrExpired#2) && rerr == nil ==> !(ret(get#1).Value == nil && ret(get#1).Meta == 0) && !gone(ret(get#1).Meta, ret(get#1).ExpiresAt, now)
+//@   assert[lsm-item] before return : called(SafeCopy#1) ==> item.version == ret(get#1).Version && item.meta == ret(get#1).Meta && item.userMeta == ret(get#1).UserMeta && item.expiresAt == ret(get#1).ExpiresAt && item.vptr == ret(SafeCopy#1)
+//@   assert[lsm-value] before call SafeCopy : bytes(arg1) == bytes(ret(get#1).Value)
+//@   assigns everything
